@@ -382,6 +382,9 @@ func c07Eval(c c07Case) (ok bool, sig, detail string) {
 	if c.Kind == "string" {
 		return c07EvalString(c)
 	}
+	if c.Kind == "history" {
+		return c07HistEval(c)
+	}
 	seed, have := c07Seeds[c.Seed]
 	if !have {
 		return true, "", "unknown seed"
@@ -445,6 +448,23 @@ func c07Eval(c c07Case) (ok bool, sig, detail string) {
 			}
 			if out.recs[i] != base.recs[i] {
 				return false, "truncated-record-accepted", what + fmt.Sprintf(": record %d of the truncated stream differs from the same record of the full stream (a cut record was returned as a value; error=%q)", i, out.errText)
+			}
+		}
+		// T3b': a GenBank stream cut inside a record (something other than white space follows the last complete
+		// record) is reported as an error, not as a clean end of the stream.  A cut inside the very first line of
+		// a record leaves no recognisable record and is not judged.
+		if !isFasta && out.errText == "" {
+			cut := bytes.ReplaceAll(data, []byte("\r\n"), []byte("\n"))
+			last := 0
+			if i := bytes.LastIndex(cut, []byte("\n//\n")); i >= 0 {
+				last = i + 4
+			}
+			if t := bytes.TrimRight(cut, "\r"); bytes.HasSuffix(t, []byte("\n//")) {
+				last = len(cut) // the terminator itself is complete, only its line end is missing
+			}
+			rest := bytes.TrimLeft(cut[last:], " \t\r\n")
+			if len(rest) > 0 && bytes.IndexByte(rest, '\n') >= 0 {
+				return false, "truncated-record-silently-dropped", what + fmt.Sprintf(": the stream ends inside a record (%d bytes after the last complete record, starting %q) but the scanner reports a clean end after %d records", len(rest), firstLine(string(rest)), len(out.recs))
 			}
 		}
 	case "declen":
@@ -535,7 +555,7 @@ func init() {
 	register(&Check{ID: "C07", Level: "model_checking", Quick: 240 * time.Second, Thor: 40 * time.Minute,
 		Run: func(r *engine.Run) bool {
 			c07LoadSeeds()
-			r.Rule = "seeds = corpus files + generated GenBank (every field kind), CONTIG-only, multi-record GenBank and FASTA, as LF and CRLF; mutations = every truncation offset, every line deleted/duplicated/swapped, every offset x 12 replacement bytes (small seeds), declared LOCUS length over 0..2N, every field line's indent -3..+3, value removed, name widened; environment answers = one full read, one short read at every offset, one byte per read; string parsers: every token string up to length k over per-parser alphabets and every byte string of length <=2; oracle: no panic, returns within a watchdog, Len()==residues, truncated streams yield a prefix of the full stream's records, a declared length != ORIGIN count is an error; distinct key = (seed, mutation, reader); non-trivial = every mutated input"
+			r.Rule = "seeds = corpus files + generated GenBank (every field kind), CONTIG-only, multi-record GenBank and FASTA, as LF and CRLF; mutations = every truncation offset, every line deleted/duplicated/swapped, every offset x 12 replacement bytes (small seeds), declared LOCUS length over 0..2N, every field line's indent -3..+3, value removed, name widened; environment answers = one full read, one short read at every offset, one byte per read; string parsers: every token string up to length k over per-parser alphabets and every byte string of length <=2; history independence: every token string up to length 4-5 of the seven string parsers evaluated in ascending and in descending order in two fresh processes must get the same answer; oracle: no panic, returns within a watchdog, Len()==residues, truncated streams yield a prefix of the full stream's records, a declared length != ORIGIN count is an error; distinct key = (seed, mutation, reader); non-trivial = every mutated input"
 			thorough := r.Tier == "thorough"
 			complete := true
 			eval := func(c c07Case, size int) bool {
@@ -699,6 +719,43 @@ func init() {
 				r.Extra["seeds_completed"] = name
 				if r.WantSample() {
 					r.Sample(c07Case{Kind: "scan", Seed: name, Mut: "trunc", A: n / 2})
+				}
+			}
+			// history independence of the string parsers (two fresh processes, opposite orders)
+			for _, pn := range c07HistParsers {
+				diff, n, err := c07HistDiff(pn)
+				if err != nil {
+					r.Note("history sub-check for " + pn + " skipped: " + err.Error())
+					continue
+				}
+				r.Evals.Add(int64(2 * n))
+				r.Transitions.Add(int64(2 * n))
+				r.Count("history_inputs_"+pn, int64(n))
+				ins := c07HistInputs(pn)
+				for k, i := range diff {
+					if k >= 5 {
+						break
+					}
+					c := c07Case{Kind: "history", Parser: pn, Input: ins[i]}
+					r.Fail(engine.Failure{Sig: "history-dependent:" + pn, Case: c, Detail: fmt.Sprintf("%s parser: the answer for %q depends on which strings were interpreted before it (%d of %d inputs differ between ascending and descending evaluation in fresh processes)", pn, ins[i], len(diff), n), Size: 650000 + len(ins[i])})
+				}
+			}
+			for _, pn := range c07HistParsers {
+				pairs, n, err := c07HistSmallCheck(pn, func(n int, fn func(i int)) { r.ParallelFor(n, fn) })
+				if err != nil {
+					r.Note("history (fresh single vs after the set) sub-check for " + pn + " skipped: " + err.Error())
+					continue
+				}
+				r.Evals.Add(int64(2 * n))
+				r.States.Add(int64(n))
+				r.Count("history_fresh_singles_"+pn, int64(n))
+				S := c07HistSmall(pn)
+				for _, pr := range pairs {
+					c := c07Case{Kind: "history", Mut: "pair", Parser: pn, A: pr[0], B: pr[1], Input: S[pr[1]]}
+					okc, sig, detail := c07HistEval(c)
+					if !okc {
+						r.Fail(engine.Failure{Sig: sig, Case: c, Detail: detail, Size: 640000})
+					}
 				}
 			}
 			// string parsers
